@@ -676,6 +676,32 @@ fn main() {
             if j % 2 == 0 { run_gcd(&mut log, &a, &b, "cf") } else { run_gcd(&mut log, &b, &a, "cf") }
         }
     }
+    // --smallfam K: gcd / gcd_ext between a multi-word value and a one- or two-word value d with a planted relation
+    // a = k d + delta, delta in {0 (d divides: the quotient stays in the cofactor's buffer), 1, d - 1, random}: the branches of
+    // gcd_ext_word / gcd_ext_dword (GcdExtAlg!PrimGcdExt, ModInvAlg!GcdExtSmall)
+    if let Some(i) = args.extra.iter().position(|a| a == "--smallfam") {
+        let k: u64 = args.extra[i + 1].parse().unwrap();
+        for j in 0..k {
+            let dw = 1 + (j % 2) as usize;
+            let pat = if j % 3 == 0 { rng.next() } else { 0 };
+            let d = ubig_from_bytes(&pattern_bytes(&mut rng, 8 * dw, pat)) + UBig::from(2u8);
+            let kw = 2 + rng.below(4) as usize;
+            let kpat = if j % 5 == 0 { rng.next() } else { 0 };
+            let kk = ubig_from_bytes(&pattern_bytes(&mut rng, 8 * kw, kpat)) + UBig::ONE;
+            let delta = match (j / 2) % 4 {
+                0 => UBig::ZERO,
+                1 => UBig::ONE,
+                2 => &d - UBig::ONE,
+                _ => ubig_from_bytes(&pattern_bytes(&mut rng, 8 * dw, 0)) % &d,
+            };
+            let mut a = IBig::from(&kk * &d + delta);
+            let d = IBig::from(d);
+            if j % 7 == 6 {
+                a = -a;
+            }
+            if j % 2 == 0 { run_gcd(&mut log, &a, &d, "smallfam") } else { run_gcd(&mut log, &d, &a, "smallfam") }
+        }
+    }
     let n = log.finish();
     eprintln!("c12[{}]: {} events", BUILD, n);
 }
